@@ -282,6 +282,8 @@ def _get_comment_ending_at_line(code_lines: list[str], line: int) -> str:
             break  # previous line is an assignment
         if '"""' in line_str or "'''" in line_str:
             break  # previous line has a docstring
+        if line_str.lstrip().startswith(("class ", "@")):
+            break  # the class header (or a decorator): a comment on it doesn't document a field.
         start_line -= 1
     start_line += 1
 
